@@ -1,10 +1,12 @@
 (** Extraction of every executable model. ExtrOcamlBasic only; numbers stay
     Coq's binary [positive]/[N]/[Z]; no Extract Constant. *)
 From Coq Require Import Extraction ExtrOcamlBasic.
-From Verif Require Import Unit.UnitComp Time.TimeCacheComp Base.Generic Persist.ShardIdComp Txcache.PoolComp.
+From Verif Require Import Fifo.FifoComp Persist.PersistComp Unit.UnitComp Time.TimeCacheComp Base.Generic Persist.ShardIdComp Txcache.PoolComp.
 Extraction Language OCaml.
 Separate Extraction
   Generic.run_steps
+  FifoComp.fifo_component
+  PersistComp.persist_component
   UnitComp.unit_component
   TimeCacheComp.timecache_component
   ShardIdComp.shardid_component
